@@ -230,8 +230,8 @@ impl Peer {
                     }
                 }
             }
-            if t0.elapsed().as_secs() > 20 {
-                self.pump_error = Some("server neither answered nor waited for input within 20s".into());
+            if t0.elapsed().as_secs() > 180 {
+                self.pump_error = Some("server neither answered nor waited for input within 180s".into());
                 self.eof = true;
                 return;
             }
@@ -244,7 +244,7 @@ impl Peer {
     pub fn finish(&mut self) -> Option<i32> {
         self.stdin = None;
         let t0 = std::time::Instant::now();
-        while !self.eof && t0.elapsed().as_secs() < 10 {
+        while !self.eof && t0.elapsed().as_secs() < 60 {
             let n = self.drain();
             if n == 0 && !self.eof {
                 std::thread::sleep(std::time::Duration::from_micros(100));
@@ -363,7 +363,7 @@ impl Write for PeerWrite {
                         Err(e) if e.kind() == io::ErrorKind::WouldBlock => {
                             p.drain();
                             std::thread::sleep(std::time::Duration::from_micros(50));
-                            if t0.elapsed().as_secs() > 20 {
+                            if t0.elapsed().as_secs() > 180 {
                                 return Err(io::Error::new(io::ErrorKind::TimedOut, "server does not read"));
                             }
                         }
